@@ -213,10 +213,10 @@ Definition resolvable (c : cfg) (s : store) (r : root) : bool :=
 Definition save_quiet (c : cfg) (s : store) (bh : Z) : bool :=
   negb (c_prune c) || (bh >? s_maxh s).
 
-Lemma do_save_quiet : forall ord c s t bh rh lru mem,
-  save_quiet c s bh = true -> exists s', do_save ord c (with_caches s lru mem) t bh rh = Some s'.
+Lemma do_save_quiet : forall c s t bh lru mem,
+  save_quiet c s bh = true -> exists s', do_save c (with_caches s lru mem) t bh = Some s'.
 Proof.
-  intros ord c s t bh rh lru mem Q. unfold do_save. unfold save_quiet in Q. simpl.
+  intros c s t bh lru mem Q. unfold do_save. unfold save_quiet in Q. simpl.
   destruct (c_prune c); simpl in Q.
   - rewrite Q. destruct (asave (c_mvcc c) t (s_db s, lru)) as [d l]. eauto.
   - destruct (asave (c_mvcc c) t (s_db s, lru)) as [d l]. eauto.
@@ -232,20 +232,19 @@ Proof.
   assert (F : full_o o). { destruct o as [t|]; simpl; auto. unfold full. destruct (has_missing t); [discriminate|reflexivity]. }
   assert (G' : o_good (den_o o)). { rewrite (den_o_root _ C0), R0. exact G. }
   destruct (aset_all_total kvs o lg0 C0 F G') as (o' & lg & ->).
-  match goal with |- context [run_log c (s_db s) ?x _] => set (lg' := x) end.
-  destruct (run_log c (s_db s) lg' (s_lru s, s_mem s, [])) as [[l1 m1] ob1]. eauto.
+  destruct (run_log c (s_db s) lg (s_lru s, s_mem s, [])) as [[l1 m1] ob1]. eauto.
 Qed.
 
-Theorem update_total_partial : forall pending ord c s r bh kvs,
+Theorem update_total_partial : forall pending c s r bh kvs,
   store_sound s -> o_good (root_tree r) ->
   resolvable c s r = true -> save_quiet c s bh = true ->
-  exists r' s', st_update pending ord c s r bh kvs = Ok (r', s').
+  exists r' s', st_update pending c s r bh kvs = Ok (r', s').
 Proof.
-  intros pending ord c s r bh kvs S G R Q.
+  intros pending c s r bh kvs S G R Q.
   destruct (prepare_total c s r bh kvs S G R) as ([[[o lru1] mem1] obs] & PR).
   destruct pending; simpl.
   - unfold st_memset. destruct kvs as [|kv kvs]; [eauto|].
     rewrite PR. destruct o as [t|]; eauto.
   - unfold st_set. rewrite PR. destruct o as [t|]; [|eauto].
-    match goal with |- context [do_save ord c _ t bh ?x] => destruct (do_save_quiet ord c s t bh x lru1 mem1 Q) as [s' ->] end. eauto.
+    destruct (do_save_quiet c s t bh lru1 mem1 Q) as [s' ->]. eauto.
 Qed.
